@@ -67,13 +67,14 @@ def parseEnv (s : String) : Option Env :=
       | _ => none
     pure fun n => (pairs.find? fun p => p.1 = n).map (·.2)
 
+/-- decimal text of an `int`: an optional minus sign and 1-10 digits (leading zeros allowed: they
+are still decimal), within range -/
 def isCanonInt (s : Str) : Option Int :=
-  let digits := fun (l : Str) => !l.isEmpty && l.all Char.isDigit && (l.length == 1 || l.head? != some '0')
   let body := match s with | '-' :: r => r | r => r
-  if digits body && body.length ≤ 10 && s != ['-', '0'] then
-    match (String.ofList s).toInt? with
-    | some n => if -2147483648 ≤ n && n ≤ 2147483647 then some n else none
-    | none => none
+  if !body.isEmpty && body.all Char.isDigit && body.length ≤ 10 then
+    let n : Int := body.foldl (fun acc c => acc * 10 + (c.toNat - '0'.toNat : Nat)) 0
+    let v : Int := match s with | '-' :: _ => -n | _ => n
+    if -2147483648 ≤ v && v ≤ 2147483647 then some v else none
   else none
 
 def resultStr (r : Result) : String :=
